@@ -411,6 +411,11 @@ impl SecondaryTransaction {
         if self.read_only {
             panic!("Txn is read-only but append is called");
         }
+        // A chunk without rows (e.g. from a filter that selects nothing below INSERT .. SELECT) adds
+        // nothing: it must not start a row-set, which could not be flushed empty.
+        if columns.cardinality() == 0 {
+            return Ok(());
+        }
         if self.mem.is_none() {
             let rowset_id = self.table.generate_rowset_id();
             let directory = self.table.get_rowset_path(rowset_id);
